@@ -253,6 +253,43 @@ pub fn generate(g: &mut Gen, thorough: bool) {
             }
         }
     }
+    // a Helmert step inside a macro whose parameters come from the caller of the macro (the body does not mention
+    // them): the same as the step with the parameters written into it, scalars, lists and rates alike
+    {
+        let res: Vec<(String, String)> = vec![
+            ("datum:shift".to_string(), "helmert".to_string()),
+            ("datum:via".to_string(), "cart ellps=$left | helmert | cart inv ellps=$right".to_string()),
+            ("datum:pv".to_string(), "helmert convention=position_vector".to_string()),
+        ];
+        let cartesian = data_of(&random_points(&mut g.rng, 4, true));
+        let geographic = data_of(&[[0.2, 0.95, 100.0, 2020.0], [-1.3, -0.4, 0.0, 2000.0]]);
+        for (inv, seq, pts) in [
+            ("datum:shift x=-87 y=-96 z=-120", vec!["helmert x=-87 y=-96 z=-120"], &cartesian),
+            ("datum:shift translation=1,2,3 s=0.5", vec!["helmert translation=1,2,3 s=0.5"], &cartesian),
+            ("datum:shift x=10 dx=1 t_epoch=2010", vec!["helmert x=10 dx=1 t_epoch=2010"], &cartesian),
+            ("datum:pv x=1 rx=0.5 ry=-0.25 rz=2 s=0.1", vec!["helmert convention=position_vector x=1 rx=0.5 ry=-0.25 rz=2 s=0.1"], &cartesian),
+            ("datum:pv rotation=1,2,3 drz=0.01 t_epoch=2000", vec!["helmert convention=position_vector rotation=1,2,3 drz=0.01 t_epoch=2000"], &cartesian),
+            ("datum:via left=intl right=GRS80 x=-87 y=-96 z=-120", vec!["cart ellps=intl", "helmert x=-87 y=-96 z=-120", "cart inv ellps=GRS80"], &geographic),
+            ("addone | datum:shift z=5 inv | addone inv", vec!["addone", "helmert z=5 inv", "addone inv"], &cartesian),
+        ] {
+            for dir in ["F", "I"] {
+                let mut f = vec!["S_C04F".to_string(), res.len().to_string()];
+                for (n, b) in &res {
+                    f.push(crate::wire::escape(n));
+                    f.push(crate::wire::escape(b));
+                }
+                f.push(crate::wire::escape(inv));
+                f.push(dir.to_string());
+                f.push(seq.len().to_string());
+                for sdef in &seq {
+                    f.push(crate::wire::escape(sdef));
+                }
+                f.push(pts.clone());
+                g.push(f.join("\t"), "oracle-helmert-in-a-macro", true);
+                g.push(op_line("default", &res, &[], inv, "apply", dir, pts), "model-helmert-in-a-macro", true);
+            }
+        }
+    }
     // constructor errors: missing convention, missing t_epoch, bad list lengths
     for def in [
         "helmert rx=1",
